@@ -317,8 +317,10 @@ class MinimizerIMinuit(MinimizerBase):
     ):
         if not self.did_fit:
             raise RuntimeError("Need to perform a fit before calling profile()!")
-        _bound_low, _bound_high, _arrow_specs = self._get_profile_bound(parameter_name, low, high, sigma, cl, subtract_min, arrows)
-        self.minimize()  # return to minimum
+        try:
+            _bound_low, _bound_high, _arrow_specs = self._get_profile_bound(parameter_name, low, high, sigma, cl, subtract_min, arrows)
+        finally:
+            self.minimize()  # return to minimum, also when the request is refused after the bounds were searched
         _kwargs = dict(bound=(_bound_low, _bound_high), subtract_min=subtract_min)
         if _IMINUIT_1:
             _kwargs["bins"] = size
